@@ -21,6 +21,8 @@ type Loop struct {
 	labelContinue string
 	// Number of try-blocks (of the current function) which enclosed the loop when it was entered.
 	tryDepth uint
+	// Number of pending operands (of the current function) which were on the stack when the loop was entered.
+	pending uint
 }
 
 type Function struct {
@@ -43,7 +45,10 @@ type Compiler struct {
 	varScopes       []map[string]string
 	// Number of try-blocks of the current function which enclose the code that is currently being compiled.
 	// A `break`, `continue` or `return` leaving such blocks must unregister their exception handlers.
-	tryDepth    uint
+	tryDepth uint
+	// Number of operands of unfinished enclosing expressions (of the current function) which are on the stack
+	// while the current code runs. A `break`, `continue` or `return` abandoning them must drop them.
+	pending     uint
 	currScope   *map[string]string
 	currModule  string
 	lambdaCount uint
